@@ -41,7 +41,7 @@ REGISTRY = {
             "ranges of at most 2^62 elements, 1 <= replicas <= 2^32",
             "csv terminator is '\\n' or '\\r\\n'; no quoted record terminators",
         ],
-        "level_text": "Proof: range splitting (all integer types, saturation/overflow explicit), the line-based file source and the CSV byte-range alignment are modelled in Gallina; partition theorems are proved for every range, file content and replica count. Tied to the code by calling the real generate_iterator / FileSource / CsvSource for every replica on generated inputs (boundary-biased ranges, exhaustive small files) and comparing inside Coq.",
+        "level_text": "Proof: range splitting (all integer types, saturation/overflow explicit), the line-based file source and the CSV byte-range alignment are modelled in Gallina; partition theorems are proved for every range, file content and replica count. Tied to the code by calling the real generate_iterator / FileSource / CsvSource for every replica on generated inputs (boundary-biased ranges, exhaustive small files, records and lines of 9-20 KB that outgrow the 8 KiB reader buffers) and comparing inside Coq.",
         "level_note": "Trusted: Coq kernel/vm_compute, hand-written model (checked by correspondence), harness; read_until/read_line/seek and the csv record parser are assumed, not verified. No axioms.",
         "explanation": "Theorems C15_* proved for all inputs; correspondence on 10 integer types, files and csv inputs.",
     },
@@ -81,7 +81,7 @@ REGISTRY = {
             "user functions associative and commutative for the order/partition-independence statements; init neutral for the global function in two-phase forms (documented contract, N2)",
             "arrival interleavings respect round synchronisation (theorem of the loop protocol, C10)",
         ],
-        "level_text": "Proof: Fold and KeyedFold are modelled as machines and proved to output per round exactly the sequential fold (per key), with max timestamp, nothing carried over; order and partition independence for commutative monoids; and the end-to-end two-phase theorem over the real Start model for every partition and arrival interleaving. Tied to the code by driving the real Start->Fold / Start->KeyBy->KeyedFold / second phase of group_by_fold chains with 1..5 hand-driven upstream replicas.",
+        "level_text": "Proof: Fold and KeyedFold are modelled as machines and proved to output per round exactly the sequential fold (per key), with max timestamp, nothing carried over; order and partition independence for commutative monoids; and the end-to-end two-phase theorem over the real Start model for every partition and arrival interleaving. Tied to the code by driving the real Start->Fold / Start->KeyBy->KeyedFold / second phase of group_by_fold chains with 1..5 hand-driven upstream replicas, and by whole jobs through every aggregation entry point of the API named by the property (fold, fold_assoc, reduce, reduce_assoc, group_by_fold / _reduce / _sum / _count / _avg / _min_element / _max_element, group_by + fold / reduce, unique_assoc) on local(1..8) with all batch modes and every kind of sink, compared in Coq with the sequential meaning.",
         "level_note": "Trusted: Coq kernel/vm_compute, hand-written models (checked by correspondence), harness; user closures are universally quantified in the theorems and instantiated with collect/sum in the correspondence. No axioms.",
         "explanation": "C07_* proved; correspondence over real chains behind the real Start.",
     },
@@ -143,7 +143,7 @@ REGISTRY = {
             "the distribution of a join over replicas (ship_hash / ship_broadcast_right) is the routing of C03 plus whole-pipeline runs (C01)",
         ],
         "assumptions": ["joins take non-timestamped items (timestamped input panics in the implementation: explicit model state); interval join input sorted by timestamp, timestamps >= 0"],
-        "level_text": "Proof: every local join algorithm is modelled verbatim and proved, for all inputs (duplicate keys, one-sided keys, empty sides) and every interleaving of the two sides and of their end markers, to output a permutation of the relational join per iteration, with the end-of-iteration assertions holding and nothing carried over; the interval join outputs exactly the pairs inside the interval for all bounds. Tied to the code by driving the real Start::multiple -> join chains built with the public API with explicit delivery orders on both inputs.",
+        "level_text": "Proof: every local join algorithm is modelled verbatim and proved, for all inputs (duplicate keys, one-sided keys, empty sides) and every interleaving of the two sides and of their end markers, to output a permutation of the relational join per iteration, with the end-of-iteration assertions holding and nothing carried over; the interval join outputs exactly the pairs inside the interval for all bounds. Tied to the code by driving the real Start::multiple -> join chains built with the public API with explicit delivery orders on both inputs, and by whole jobs left.join(right) through the API (inner / left / outer x hash / broadcast shipping x hash / sort-merge) on local and two-host deployments, sink multiset against the relational join.",
         "level_note": "Trusted: Coq kernel/vm_compute, hand-written models (checked by correspondence), harness pacing (one batch in flight). No axioms.",
         "explanation": "C08_* proved for all interleavings; correspondence over real join chains.",
     },
@@ -155,7 +155,7 @@ REGISTRY = {
             "multiplexer / demultiplexer threads only call remote_send / remote_recv in a loop and look the endpoint up in a map; exercised by the multi-host pipeline runs of C01",
         ],
         "assumptions": ["payload sizes below 2^32 bytes", "the correspondence drives the adaptive batcher under a mock clock (hook 87c48ac) with readings in multiples of 10 ms and delays of 5/15/45 ms: a reading exactly max_delay after last_send is avoided because coarsetime rounds each operand to 2^-32 s ticks there"],
-        "level_text": "Proof: per receiving replica, the sequence received over a link is exactly the sequence the producer's End addressed to it, in order, for every strategy, every batch mode (fixed, single, adaptive with ANY clock: the clock only decides where batches are cut, never content or order; every adaptive batch has 1..n elements) and number of downstream blocks (batcher sequence + End invariant), and the wire format round-trips frames of several replicas on one connection. Tied to the code by driving the real End with hand-made receivers (batch boundaries compared exactly) and the real remote_send / remote_recv over byte buffers (header bytes compared with the model encoder). Partial: channel/TCP reliability and bincode are assumed.",
+        "level_text": "Proof: per receiving replica, the sequence received over a link is exactly the sequence the producer's End addressed to it, in order, for every strategy, every batch mode (fixed, single, adaptive with ANY clock: the clock only decides where batches are cut, never content or order; every adaptive batch has 1..n elements) and number of downstream blocks (batcher sequence + End invariant), and the wire format round-trips frames of several replicas on one connection. Tied to the code by driving the real End with hand-made receivers (batch boundaries compared exactly) and the real remote_send / remote_recv over byte buffers (header bytes compared with the model encoder), plus whole jobs over real TCP links: an idle link (12 s) and four senders mixing ~70 KB and tiny one-element messages over a shared multiplexed connection (per sender: exact sequence, in order). Partial: channel/TCP reliability and bincode are assumed.",
         "level_note": "Trusted: Coq kernel/vm_compute, hand-written model (checked by correspondence), harness; flume/TCP FIFO reliability and bincode round-trip assumed. No axioms.",
         "explanation": "C02_* proved; End and framing driven directly.",
     },
